@@ -24,9 +24,11 @@ its position `i` in `State.subs`.
 * `dead_stays_silent`, `expired_stays_silent`: a subscriber that is not running and holds no response
   is never sent anything again and never changes status, whatever operations follow (cache calls,
   gate operations, polls, EOF, timeouts); in particular one ended by the timeout.
-  `dead_stays_silent_any` (without "holds no response") is **false of the model**
-  (`not_dead_stays_silent_any`): a POLL subscriber that half-closes while its sender is inside a
-  gated `Send` keeps the held response, and `gateOpen` still delivers it.
+  `eof_stays_silent`: a POLL subscriber that half-closes — also while its sender is inside a gated `Send`:
+  the held response is dropped with the stream, as the real server does
+  (`corpus/C05/eof_with_response_held.ops`) — is never sent anything again.  (Before `Sub.eof` was repaired
+  the model kept the held response and `gateOpen` delivered it; `dead_stays_silent_any`, the statement
+  without "holds no response", was false of the model then.  It is kept as the full statement, not proved.)
 * `expire_noninterference`, `expire_only_blocked`: `expire` does not change the cache, and changes no
   subscriber that is not itself running and inside `Send`; in particular (reachable states) no
   running subscriber whose flow control is open.
@@ -135,11 +137,29 @@ theorem expired_stays_silent (enc : String → String) {st : Sub.State} (hr : Re
   obtain ⟨s', g1, g2, g3, _, g5, g6⟩ := dead_stays_silent enc h1 rfl rfl ops
   exact ⟨s', g1, g2, g3, g5, g6⟩
 
-/-- (ii) without the side condition "holds no response" -/
+/-- (ii) without the side condition "holds no response": the full statement.  Not proved (it needs the
+invariant "a subscriber that is not running holds no response" of reachable states); its former
+counterexample — a half-close while a response is held — is gone since `Sub.eof` drops the held response:
+`eof_stays_silent`. -/
 def dead_stays_silent_any : Prop :=
   ∀ (enc : String → String) (st : Sub.State), Reachable enc st → ∀ (i : Nat) (s : Subscriber),
     st.subs[i]? = some s → s.alive = false → ∀ ops : List SubEnd.Op,
     ∃ s', (run enc st ops).subs[i]? = some s' ∧ (s'.out = s.out ∨ s'.out = [])
+
+/-- **A half-closed POLL subscriber is never sent anything again** — whether or not its sender was inside
+a gated `Send` when the client half-closed: after `eof` it is not running, its status is OK, it holds no
+response, and whatever follows (gate operations included) appends nothing to `out`. -/
+theorem eof_stays_silent (enc : String → String) {st : Sub.State} {i : Nat} {s : Subscriber}
+    (hs : st.subs[i]? = some s) (ha : s.alive = true) (hm : s.req.mode = .poll) (ops : List SubEnd.Op) :
+    ∃ s', (run enc st (.c07 (.eof s.id) :: ops)).subs[i]? = some s' ∧ s'.alive = false ∧
+      s'.status = some .ok ∧ s'.blocked = none ∧ (s'.out = s.out ∨ s'.out = []) ∧
+      ((∀ op ∈ ops, ¬ isDrainOf s.id op) → s'.out = s.out) := by
+  have h1 : (step enc st (.c07 (.eof s.id))).subs[i]? =
+      some { s with alive := false, status := some .ok, blocked := none } := by
+    rw [step_at enc st _ i s hs]
+    simp [subStep, on, eofF, ha, hm]
+  obtain ⟨s', g1, g2, g3, g4, g5, g6⟩ := dead_stays_silent enc h1 rfl rfl ops
+  exact ⟨s', g1, g2, g3, g4, g5, g6⟩
 
 /-! ## (iii) the timeout of one subscriber is nobody else's business -/
 
@@ -208,33 +228,13 @@ theorem st0_after_expire :
   decide
 
 /-- the POLL subscriber half-closes while its sender is inside a gated `Send`: it is not running
-(status OK) but still holds the response; `gateOpen` delivers it -/
+(status OK) and the held response is gone with the stream; `gateOpen` delivers nothing (the real server
+does the same: `corpus/C05/eof_with_response_held.ops`) -/
 theorem eof_while_blocked_witness :
     (run id st0 [.c07 (.eof "s2")]).subs.map (fun s => (s.id, s.alive, s.status, s.blocked.isSome, s.out.length)) =
-      [("s0", true, none, true, 2), ("s1", true, none, false, 3), ("s2", false, some Code.ok, true, 2)] ∧
+      [("s0", true, none, true, 2), ("s1", true, none, false, 3), ("s2", false, some Code.ok, false, 2)] ∧
     (run id st0 [.c07 (.eof "s2"), .c07 (.gate "s2" false)]).subs.map (fun s => (s.id, s.alive, s.out.length)) =
-      [("s0", true, 2), ("s1", true, 3), ("s2", false, 3)] := by decide
-
-/-- **(ii) needs "holds no response"**: in the model, a subscriber that ended while its sender was
-inside a gated `Send` is sent the held response when the gate opens.  This is a fact about the model
-only: replayed against `subscribe.Server` (`su` lines `gate s2 shut; poll s2; eof s2; gate s2 open`)
-the code delivers nothing after the RPC has returned — the correspondence generators never send
-poll/EOF to a subscriber whose sends are gated (`SUB_ASSUMPTIONS`), so the model is not validated
-there (`Sub.setGate`/`Sub.stepGate` release `blocked` without looking at `alive`). -/
-theorem not_dead_stays_silent_any : ¬ dead_stays_silent_any := by
-  intro h
-  have hr : Reachable id (run id st0 [.c07 (.eof "s2")]) := reachable_run st0_reachable _
-  have hs : (run id st0 [.c07 (.eof "s2")]).subs[2]? =
-      some ((run id st0 [.c07 (.eof "s2")]).subs[2]'(by decide)) := List.getElem?_eq_getElem _
-  obtain ⟨s', h1, h2⟩ := h id _ hr 2 _ hs (by decide) [.c07 (.gate "s2" false)]
-  have h3 : ((run id (run id st0 [.c07 (.eof "s2")]) [.c07 (.gate "s2" false)]).subs[2]?).map (·.out.length) =
-      some 3 := by decide
-  rw [h1] at h3
-  simp only [Option.map_some, Option.some.injEq] at h3
-  have h4 : ((run id st0 [.c07 (.eof "s2")]).subs[2]'(by decide)).out.length = 2 := by decide
-  rcases h2 with h2 | h2
-  · rw [h2, h4] at h3; cases h3
-  · rw [h2] at h3; cases h3
+      [("s0", true, 2), ("s1", true, 3), ("s2", false, 2)] := by decide
 
 end C08Expire
 end Gnmi
